@@ -121,6 +121,17 @@ func (s mState) eachField(f func(p *mSchema, o *mObj, fld *ast.StructField)) {
 // constant refs, discriminator mappings incl. those kept in hints, entry
 // point, map index types) now names `to`. No match: identity.
 func modelRenameObject(c *mctx, s mState, from objRef, to string) []alt {
+	pre := s.clone()
+	out, stale := modelRenameObject1(c, s, from, to, false)
+	if stale && len(out) > 0 {
+		c2 := *c
+		more, _ := modelRenameObject1(&c2, pre, from, to, true)
+		out = append(out, more...)
+	}
+	return out
+}
+
+func modelRenameObject1(c *mctx, s mState, from objRef, to string, renameStale bool) ([]alt, bool) {
 	var hitP *mSchema
 	var hit *mObj
 	n := 0
@@ -131,28 +142,33 @@ func modelRenameObject(c *mctx, s mState, from objRef, to string) []alt {
 		}
 	})
 	if n == 0 {
-		return one(s)
+		return one(s), false
 	}
 	c.matched = true
 	if n > 1 {
 		// lenient: two objects (names differing in case) would both be
 		// renamed to one name; the documentation does not define the outcome.
-		return nil
+		return nil, false
 	}
 	old := hit.O.Name
 	if old != to && hitP.index(to) >= 0 {
-		return nil // lenient: the new name is taken; outcome undefined
+		return nil, false // lenient: the new name is taken; outcome undefined
 	}
 	c.renamed(hitP.Package, to, hit.Key)
 	hit.O.Name, hit.O.SelfRef.ReferredType, hit.Key = to, to, to
 	touchObj(hit)
 	if old == to {
-		return one(s)
+		return one(s), false
 	}
 	pkg := hitP.Package
 	if hitP.EntryPoint == old {
 		hitP.EntryPoint = to
 	}
+	// A mapping entry naming the old object is a reference to it. When no
+	// branch of the union refers to the object any more (a stale mapping left
+	// by replace_reference) the statement does not say whether the entry
+	// follows the rename: both outcomes are accepted (see staleAlt below).
+	staleSeen := false
 	fixMapping := func(d *ast.DisjunctionType) {
 		points := false
 		for _, b := range d.Branches {
@@ -161,7 +177,14 @@ func modelRenameObject(c *mctx, s mState, from objRef, to string) []alt {
 			}
 		}
 		if !points {
-			return
+			for _, v := range d.DiscriminatorMapping {
+				if v == old {
+					staleSeen = true
+				}
+			}
+			if !renameStale {
+				return
+			}
 		}
 		for k, v := range d.DiscriminatorMapping {
 			if v == old {
@@ -186,7 +209,7 @@ func modelRenameObject(c *mctx, s mState, from objRef, to string) []alt {
 			t.ConstantReference.ReferredType = to
 		}
 	})
-	return one(s)
+	return one(s), staleSeen
 }
 
 // omit {objects}: the matched objects are removed; the relative order of the
